@@ -28,15 +28,72 @@ def setattr_refused(name: str, v: int) -> bool:
     """
     o = _obj()
     try:
-        setattr(o, name, v)
+        type(o).__setattr__(o, name, v)      # (the setattr() builtin itself rejects CrossHair's symbolic str before the library's method runs)
     except ImmutableError:
         V.reached()
         return not name.startswith("_")
     except (AttributeError, TypeError, ValueError):
+        # only a private name can get as far as object.__setattr__ (which rejects CrossHair's symbolic str: an artefact of the engine)
         V.reached()
-        return True
+        return name.startswith("_")
     V.reached()
     return name.startswith("_") and o.serialize() == _obj().serialize()
+
+
+def _custom_objects():
+    ext_id = "extension-definition--" + UU
+    return [
+        stix2.v21.Identity(id="identity--" + UU, name="x", identity_class="individual", x_foo="bar", x_list=[1], allow_custom=True),
+        stix2.v20.Malware(id="malware--" + UU, name="m", labels=["l"], custom_properties={"x_foo": "bar", "zzz": 0}),
+        stix2.v21.Campaign(id="campaign--" + UU, name="c", rank=5, toplevel="t",
+                           extensions={ext_id: {"extension_type": "toplevel-property-extension"}}),
+        stix2.v21.File(name="f", x_foo="bar", allow_custom=True),
+        stix2.v21.Bundle(objects=[_obj()], x_foo=1, allow_custom=True),
+        stix2.v21.ExternalReference(source_name="s", external_id="1", x_foo="bar", allow_custom=True),
+    ]
+
+
+NCUST = 6
+EXTRA_NAMES = ["absent", "x_new", "name", "type", "serialize", "properties_populated", "object_properties"]
+
+
+def setattr_any_property(oi: int, ni: int, how: int) -> bool:
+    """
+    pre: 0 <= oi < NCUST and 0 <= ni < 16 and 0 <= how < 4
+    post: _
+    """
+    oi, ni, how = pick(oi, NCUST), pick(ni, 16), pick(how, 4)
+    with Native():
+        ok = run_setattr_case(oi, ni, how)
+    V.reached()
+    return ok
+
+
+def run_setattr_case(oi, ni, how):
+    """attribute/item assignment and deletion are refused for every property an instance carries -- specification, custom, extension -- and for
+    names it does not carry; reads and the serialization are unchanged afterwards"""
+    o = _custom_objects()[oi]
+    names = list(o.keys()) + EXTRA_NAMES
+    if ni >= len(names):
+        return True
+    name = names[ni]
+    before = o.serialize()
+    reads = {k: getattr(o, k) for k in o.keys()}
+    try:
+        if how == 0:
+            setattr(o, name, "changed")
+        elif how == 1:
+            o[name] = "changed"
+        elif how == 2:
+            delattr(o, name)
+        else:
+            del o[name]
+        refused = False
+    except (ImmutableError, AttributeError, TypeError):
+        refused = True
+    if not refused:
+        return False
+    return o.serialize() == before and all(getattr(o, k) == v for k, v in reads.items()) and list(o.keys()) == list(reads)
 
 
 def delattr_refused(pi: int) -> bool:
@@ -213,6 +270,68 @@ def run_arg_case(op, twice):
     if op == 3 and "reuse-accepted" in outcomes:
         return False
     return len(set(outcomes[::2] if op == 3 else outcomes)) == 1      # the same call on the same input gives the same outcome
+
+
+# ---- marking operations on every layout of granular markings, dict and object inputs
+M2 = "marking-definition--34098fce-860f-48ae-8e50-ebd3cc5e41da"
+GM_LAYOUTS = [
+    [{"marking_ref": M1, "selectors": ["name"]}],                                                       # one selector, one marking
+    [{"marking_ref": M1, "selectors": ["name"]}, {"lang": "en", "selectors": ["description"]}],
+    [{"marking_ref": M1, "selectors": ["name", "labels.[0]"]}],
+    [{"marking_ref": M1, "selectors": ["name"]}, {"marking_ref": M2, "selectors": ["name"]}, {"marking_ref": M1, "selectors": ["labels"]}],
+    [{"lang": "fr", "selectors": ["name"]}, {"lang": "fr", "selectors": ["name"]}],
+]
+MARK_OPS = [
+    lambda o, sel: markings.add_markings(o, M2, sel), lambda o, sel: markings.add_markings(o, M1, sel), lambda o, sel: markings.remove_markings(o, M1, sel),
+    lambda o, sel: markings.clear_markings(o, sel), lambda o, sel: markings.set_markings(o, M2, sel), lambda o, sel: markings.set_markings(o, "de", sel),
+    lambda o, sel: markings.get_markings(o, sel, inherited=True, descendants=True), lambda o, sel: markings.is_marked(o, M1, sel),
+    lambda o, sel: markings.add_markings(o, M2), lambda o, sel: markings.remove_markings(o, M1), lambda o, sel: markings.clear_markings(o),
+    lambda o, sel: markings.set_markings(o, [M2]),
+]
+SELS = [["name"], ["description"], ["labels"], ["name", "labels.[0]"]]
+NGL, NMO, NSL = len(GM_LAYOUTS), len(MARK_OPS), len(SELS)
+
+
+def marking_ops_leave_input(gi: int, oi: int, si: int, form: int) -> bool:
+    """
+    pre: 0 <= gi < NGL and 0 <= oi < NMO and 0 <= si < NSL and 0 <= form < 2
+    post: _
+    """
+    gi, oi, si, form = pick(gi, NGL), pick(oi, NMO), pick(si, NSL), pick(form, 2)
+    with Native():
+        ok = run_marking_input_case(gi, oi, si, form)
+    V.reached()
+    return ok
+
+
+def run_marking_input_case(gi, oi, si, form):
+    """the object given to a marking function -- dict or library object -- and the selector list are exactly as before, whatever the outcome,
+    and what is returned shares no mutable container with the input"""
+    d = {"type": "malware", "spec_version": "2.1", "id": "malware--" + UU, "created": "2020-01-01T00:00:00.000Z", "modified": "2020-01-01T00:00:00.000Z",
+         "name": "m", "description": "d", "is_family": False, "labels": ["a", "b"], "object_marking_refs": [M1],
+         "granular_markings": copy.deepcopy(GM_LAYOUTS[gi])}
+    o = d if form == 0 else stix2.parse(d)
+    sel = list(SELS[si])
+    snap = json.dumps(d, sort_keys=True) if form == 0 else o.serialize()
+    before_ids = {id(c) for _, c in containers(o, [])}
+    try:
+        out = MARK_OPS[oi](o, sel)
+    except (STIXError, ValueError, TypeError, KeyError):
+        out = None
+    after = json.dumps(d, sort_keys=True) if form == 0 else o.serialize()
+    if after != snap or sel != SELS[si]:
+        return False
+    if out is not None and out is not o and isinstance(out, (dict, _STIXBase)):
+        if any(id(c) in before_ids for _, c in containers(out, [])):
+            return False
+        # the result can be changed (dict form) without the input noticing
+        if isinstance(out, dict) and out.get("granular_markings"):
+            for g in out["granular_markings"]:
+                if isinstance(g, dict):
+                    g["selectors"].append("zzz")
+            if json.dumps(d, sort_keys=True) != snap:
+                return False
+    return True
 
 
 # ---- thorough: every class of both versions (enriched instance): argument snapshots and copy independence
